@@ -577,10 +577,6 @@ func (m *Machine) branch(fr *frame, in *ssa.If, c *Term) bool {
 			m.decide(c)
 			return false
 		}
-	} else if e.noMergeIf[in] {
-		e.pushConstraint(decision{cond: c, kind: 2, val: true})
-		m.decide(c)
-		return false
 	}
 	join := m.postDom(fr.fn)[b]
 	ok := m.mergeRegion(fr, in, c, join)
